@@ -33,6 +33,8 @@ def configs(tier, seed):
 def gen_history(r, lag, short):
   nm = r.randint(2, 5)
   metrics = ['m%d' % i for i in range(nm)]
+  if r.random() < 0.15:
+    metrics[r.randrange(nm)] = ''      # the pickle listener accepts a series whose name is the empty string
   n = r.randint(4, 8) if short else r.randint(8, 22)
   ops = []
   for _ in range(n):
